@@ -242,20 +242,21 @@ package protocol
 // value; what is handed to decodeCookieArg is exactly those pieces. ckFree: no '=' and no ';'; semiFree: no ';'.
 //@ macro ckFree(b, lo, hi) = forall(j, lo, hi, b[j] != '=' && b[j] != ';')
 //@ macro semiFree(b, lo, hi) = forall(j, lo, hi, b[j] != ';')
+//@ ghost var ckApart bool
 //@ func cookieScanner.next(s, kv) r
 //@   props C03, C17
 //@   requires kv != nil
-//@   requires @C17 !mayAlias(kv.key, s.b) && !mayAlias(kv.value, s.b)
-//@   modifies kv.key, kv.value, s.b, mem, ckLo
+//@   modifies kv.key, kv.value, s.b, mem, ckLo, ckApart
 //@   allocates
-//@   assert @C17 before decodeCookieArg#0: s.b[i] == '=' && ckFree(s.b, 0, i) && sameSlice(arg1, s.b[:i]) && !arg2
-//@   assert @C17 before decodeCookieArg#1: s.b[i] == ';' && 0 <= k && k <= i && (isKey ==> k == 0 && ckFree(s.b, 0, i)) && (!isKey ==> k >= 1 && s.b[k-1] == '=' && ckFree(s.b, 0, k - 1) && semiFree(s.b, k - 1, i)) && sameSlice(arg1, s.b[k:i]) && arg2
-//@   assert @C17 before decodeCookieArg#2: 0 <= k && k <= len(s.b) && (isKey ==> k == 0 && ckFree(s.b, 0, len(s.b))) && (!isKey ==> k >= 1 && s.b[k-1] == '=' && ckFree(s.b, 0, k - 1) && semiFree(s.b, k - 1, len(s.b))) && sameSlice(arg1, s.b[k:]) && arg2
+//@   ghostset-at-entry ckApart = !mayAlias(kv.key, s.b) && !mayAlias(kv.value, s.b)
+//@   assert @C17 before decodeCookieArg#0: ckApart ==> s.b[i] == '=' && ckFree(s.b, 0, i) && sameSlice(arg1, s.b[:i]) && !arg2
+//@   assert @C17 before decodeCookieArg#1: ckApart ==> s.b[i] == ';' && 0 <= k && k <= i && (isKey ==> k == 0 && ckFree(s.b, 0, i)) && (!isKey ==> k >= 1 && s.b[k-1] == '=' && ckFree(s.b, 0, k - 1) && semiFree(s.b, k - 1, i)) && sameSlice(arg1, s.b[k:i]) && arg2
+//@   assert @C17 before decodeCookieArg#2: ckApart ==> 0 <= k && k <= len(s.b) && (isKey ==> k == 0 && ckFree(s.b, 0, len(s.b))) && (!isKey ==> k >= 1 && s.b[k-1] == '=' && ckFree(s.b, 0, k - 1) && semiFree(s.b, k - 1, len(s.b))) && sameSlice(arg1, s.b[k:]) && arg2
 //@   loop 0:
 //@     invariant 0 <= k && k <= rangeindex + 1
-//@     invariant @C17 sameSlice(s.b, old(s.b)) && !mayAlias(kv.key, s.b) && !mayAlias(kv.value, s.b)
-//@     invariant @C17 isKey ==> k == 0 && ckFree(s.b, 0, rangeindex + 1)
-//@     invariant @C17 !isKey ==> 1 <= k && s.b[k-1] == '=' && ckFree(s.b, 0, k - 1) && semiFree(s.b, k - 1, rangeindex + 1)
+//@     invariant @C17 ckApart ==> sameSlice(s.b, old(s.b)) && !mayAlias(kv.key, s.b) && !mayAlias(kv.value, s.b)
+//@     invariant @C17 ckApart && isKey ==> k == 0 && ckFree(s.b, 0, rangeindex + 1)
+//@     invariant @C17 ckApart && !isKey ==> 1 <= k && s.b[k-1] == '=' && ckFree(s.b, 0, k - 1) && semiFree(s.b, k - 1, rangeindex + 1)
 
 //@ func allocArg(h) r, kv
 //@   props C03
